@@ -9,7 +9,9 @@ import (
 	"os"
 	"path/filepath"
 	"sync"
+	"sync/atomic"
 	"testing"
+	"time"
 
 	"github.com/google/licenseclassifier/stringclassifier"
 )
@@ -62,6 +64,7 @@ func TestVerifC14Root(t *testing.T) {
 			}
 			G := []int{4, 8, 16}[idx%3]
 			var wg sync.WaitGroup
+			var slow int64
 			start := make(chan struct{})
 			errs := make(chan string, G*8)
 			seeds := make([]int64, G)
@@ -76,8 +79,13 @@ func TestVerifC14Root(t *testing.T) {
 					<-start
 					for k := 0; k < 6; k++ {
 						i := gr.Intn(len(texts))
+						t0 := time.Now()
 						if gr.Intn(2) == 0 {
 							if got := vFmtMatches(L.MultipleMatch(texts[i], true)); got != wantMM[i] {
+								if time.Since(t0) >= 950*time.Millisecond {
+									atomic.AddInt64(&slow, 1) // the diff library's wall-clock deadline may have been reached
+									continue
+								}
 								errs <- fmt.Sprintf("MultipleMatch(text %d) = %s, alone: %s", i, got, wantMM[i])
 							}
 						} else {
@@ -89,6 +97,10 @@ func TestVerifC14Root(t *testing.T) {
 								if nm != nil && wantNMc[i] != nil && nm.Confidence == wantNMc[i].Confidence && nm.Offset == wantNMc[i].Offset && nm.Extent == wantNMc[i].Extent {
 									continue
 								}
+								if time.Since(t0) >= 950*time.Millisecond {
+									atomic.AddInt64(&slow, 1)
+									continue
+								}
 								errs <- fmt.Sprintf("NearestMatch(text %d) = %s, alone: %s", i, got, wantNM[i])
 							}
 						}
@@ -98,6 +110,7 @@ func TestVerifC14Root(t *testing.T) {
 			close(start)
 			wg.Wait()
 			close(errs)
+			e.count("calls_not_judged_slow", slow)
 			for s := range errs {
 				cs.violation("concurrent-result-differs", "%d goroutines on one License (archive of %d licenses): %s", G, len(d.Names), s)
 				return
